@@ -750,6 +750,8 @@ def c14(tier, rng, fam='C14'):
             b.q()
             b.step('ucall', c=2, pay='after', hp=[ret(pay='fine')])
             out.append(b.q().done())
+    # late messages for a finished stream (some encode to zero bytes) must not leave anything registered
+    out += late_messages(fam)
     return out
 
 
@@ -787,6 +789,9 @@ def c06(tier, rng, fam='C06'):
             s['ofam'] = s['fam']
             s['fam'] = fam
             out.append(s)
+    # messages that arrive after the handler has returned - including messages that encode to zero bytes -
+    # are answered with at most a reset: nothing follows a stream's trailer, no second handler runs
+    out += late_messages(fam)
     return out
 
 
@@ -978,4 +983,31 @@ def c02_storm(tier, rng, fam='C02'):
         out.append(dict(fam=fam, tag='storm of %d calls (every third a bidi echo stream), 64 at a time, %s payloads, seed %d' % (m, 'large' if big else 'small', s_),
                         runner='history', n=m, par=64, storm=True, big=big, seed=rng.randrange(1 << 30),
                         steps=[dict(op='storm')]))
+    return out
+
+
+def late_messages(fam):
+    """the caller keeps sending (it has not seen the trailer yet: responses are held back) after the handler
+    has returned; some of the late messages encode to zero bytes"""
+    out = []
+    for kind in ('bidi', 'cs'):
+        for late in (['z'], [''], ['', ''], ['', 'z', '']):
+            for code in (0, 5):
+                b = B(fam, '%s: late messages %s after the handler returned code %d' % (kind, '|'.join(x or '0' for x in late), code),
+                      ser=True, manual=True)
+                b.step('sopen', c=1, kind=kind, hp=[dict(o='recv'), ret(code=code, msg='done' if code else '')])
+                b.step('send', c=1, pay='first')
+                b.step('dlv', dir='c2s', n=-1)
+                b.q()                                   # the handler has returned; its trailer is held back
+                for x in late:
+                    b.step('send', c=1, pay=x)
+                b.step('close', c=1)
+                b.step('dlv', dir='c2s', n=-1)
+                b.q()
+                b.step('dlv', dir='s2c', n=-1)
+                b.step('recv', c=1, n=2)
+                b.step('ucall', c=2, pay='probe', hp=[ret(pay='fine')])
+                b.step('dlv', dir='c2s', n=-1)
+                b.step('dlv', dir='s2c', n=-1)
+                out.append(b.q().done())
     return out
